@@ -81,7 +81,7 @@ def main():
         dst = os.path.join(VERIF, "seeded", prop, str(k))
         os.makedirs(dst, exist_ok=True)
         for f in ("patch.diff", "demo.py", "notes.md"):
-            if os.path.exists(os.path.join(src, f)):
+            if os.path.abspath(src) != os.path.abspath(dst) and os.path.exists(os.path.join(src, f)):
                 shutil.copy(os.path.join(src, f), os.path.join(dst, f))
         notes = open(os.path.join(src, "notes.md")).read() if os.path.exists(os.path.join(src, "notes.md")) else ""
         meta = {"property": prop, "breaks": prop, "needs_to_manifest": notes[:1500],
@@ -94,6 +94,16 @@ def main():
             old = json.load(open(mp))
             meta["detected_by"] = old.get("detected_by", {})
         json.dump(meta, open(mp, "w"), indent=1)
+    if not res["confirmed"]:
+        mp = os.path.join(VERIF, "seeded", prop, str(k), "meta.json")
+        if os.path.exists(mp):
+            meta = json.load(open(mp))
+            why = ("patch no longer applies" if not res.get("patch_applies") else
+                   "demo already fails without the patch" if res.get("demo_clean_exit") != 0 else
+                   "demo no longer fails with the patch (the defect it relied on was repaired in /repo)" if res.get("demo_patched_exit") == 0 else
+                   "tests newly failing: " + ", ".join(res.get("tests_newly_failing", [])[:3]))
+            meta["obsolete"] = f"not reproducible at /repo {head[:7]}: {why}"
+            json.dump(meta, open(mp, "w"), indent=1)
     return 0 if res["confirmed"] else 1
 
 
